@@ -20,6 +20,7 @@ package main
 import (
 	"context"
 	"fmt"
+	"io/fs"
 	"sort"
 	"strings"
 	"time"
@@ -48,9 +49,9 @@ var labels = []label{
 	{"a", true, ""},
 	{"b", true, ""},
 	{"f1.pkg", false, "X 1"},
-	{"f2.pkg", false, "X 1"}, // ties with f1.pkg on name+version
+	{"f2.pkg", false, "X 1"},   // ties with f1.pkg on name+version
 	{"f3.pkg", false, "X-a 2"}, // "X" is a proper prefix of this name and '-' sorts below most separators a joined key might use
-	{"f4.pkg", false, "X 0"}, // ties on name only
+	{"f4.pkg", false, "X 0"},   // ties on name only
 }
 
 func genTrees(n int) []*memfs.Node {
@@ -406,6 +407,57 @@ func failingFamily(r *ev.Run) {
 		}
 	}
 	gitignoreRoots(r)
+	faultedListing(r)
+}
+
+// faultedListing: "no package reported twice" also when a directory listing fails part-way: for a
+// directory of 4 package files in 3 listing orders and a fault at each of its entry reads (two error
+// kinds), with the streaming and the one-shot listing interface, the result holds no package twice
+// and nothing that the fault-free scan does not hold.
+func faultedListing(r *ev.Run) {
+	ex := func() []filesystem.Extractor {
+		return []filesystem.Extractor{&scankit.Ex{N: "ex-g", Req: func(api filesystem.FileAPI) bool { return strings.HasSuffix(api.Path(), ".pkg") }}}
+	}
+	files := []*memfs.Node{memfs.F("f1.pkg", "x"), memfs.F("f2.pkg", "x"), memfs.F("f3.pkg", "x"), memfs.F("f4.pkg", "x")}
+	orders := [][]*memfs.Node{files, {files[3], files[2], files[1], files[0]}, {files[2], files[0], files[3], files[1]}}
+	for oi, o := range orders {
+		for _, noRDF := range []bool{false, true} {
+			root := memfs.D("", memfs.D("a", o...), memfs.F("z.pkg", "x"))
+			clean := memfs.New(root)
+			clean.NoReadDirFile = noRDF
+			cfg := &scalibr.ScanConfig{FilesystemExtractors: ex(), Capabilities: &plugin.Capabilities{}, ScanRoots: []*scalibrfs.ScanRoot{{FS: clean, Path: ""}}}
+			ref := scalibr.New().Scan(context.Background(), cfg)
+			full := map[string]bool{}
+			for _, p := range ref.Inventory.Packages {
+				full[p.Name] = true
+			}
+			seen := map[string]bool{}
+			for _, site := range clean.Log {
+				if seen[site] || !strings.HasPrefix(site, "readdir") {
+					continue
+				}
+				seen[site] = true
+				for _, e := range []error{fs.ErrPermission, memfs.ErrInjectedIO} {
+					m := memfs.New(root)
+					m.NoReadDirFile = noRDF
+					m.Faults = map[string]error{site: e}
+					c2 := &scalibr.ScanConfig{FilesystemExtractors: ex(), Capabilities: &plugin.Capabilities{}, ScanRoots: []*scalibrfs.ScanRoot{{FS: m, Path: ""}}}
+					res := scalibr.New().Scan(context.Background(), c2)
+					r.Evals.Add(1)
+					r.Nontrivial.Add(1)
+					cnt := map[string]int{}
+					for _, p := range res.Inventory.Packages {
+						cnt[p.Name]++
+					}
+					for name, n := range cnt {
+						if n > 1 || !full[name] {
+							r.Violation("package-reported-twice-under-listing-fault", fmt.Sprintf("listing order %d (ReadDirFile=%v), fault %s (%v): package %s reported %d times (fault-free scan has it: %v)", oi, !noRDF, site, e, name, n, full[name]), map[string]any{"listing_order": oi, "no_readdirfile": noRDF, "fault_site": site})
+						}
+					}
+				}
+			}
+		}
+	}
 }
 
 // gitignoreRoots: options that keep per-directory state during the walk (gitignore patterns, skipped
@@ -654,5 +706,5 @@ func main() {
 	failingFamily(r)
 	r.Set("bound", map[string]any{"max_nodes_completed": completed})
 	r.Assume("Go map iteration order itself cannot be controlled; its consequence (the order of the extractor/detector lists) is enumerated instead")
-	r.Finish(fmt.Sprintf("every tree with <=%d nodes over {dir a, dir b, f1.pkg..f4.pkg with tying contents (names X, X, X-a, X)} x every combination of per-directory listing permutations x 10 extractor-list orders (all rotations of the canonical order and of its reverse) x 2 detector-list orders, all compared with the canonical-order scan of the same tree (key sequences, full multisets, statuses) + sortedness; plus every ordered selection of 2..3 roots among the top-level sub-trees and the whole tree vs the union of single-root scans, virtual roots and host-path roots with StoreAbsolutePath; plus the failing family: one extractor failing on N files (N up to 25, thorough 257) listed in 5 orders and split over two roots, statuses compared up to the order of failure-reason lines (with one result-yielding file first, last and in between); a root with a .gitignore and a skipped directory under every listing order; two such roots, both root orders, vs the union of single-root scans. non-trivial = (tree, listing vector) with >=2 packages and a directory with >=2 entries, or a multi-root selection with >=1 package", maxNodes), completed == maxNodes)
+	r.Finish(fmt.Sprintf("every tree with <=%d nodes over {dir a, dir b, f1.pkg..f4.pkg with tying contents (names X, X, X-a, X)} x every combination of per-directory listing permutations x 10 extractor-list orders (all rotations of the canonical order and of its reverse) x 2 detector-list orders, all compared with the canonical-order scan of the same tree (key sequences, full multisets, statuses) + sortedness; plus every ordered selection of 2..3 roots among the top-level sub-trees and the whole tree vs the union of single-root scans, virtual roots and host-path roots with StoreAbsolutePath; plus the failing family: one extractor failing on N files (N up to 25, thorough 257) listed in 5 orders and split over two roots, statuses compared up to the order of failure-reason lines (with one result-yielding file first, last and in between); a root with a .gitignore and a skipped directory under every listing order; two such roots, both root orders, vs the union of single-root scans; a directory whose listing fails at each entry read (3 listing orders x 2 listing interfaces x 2 error kinds): no package twice. non-trivial = (tree, listing vector) with >=2 packages and a directory with >=2 entries, or a multi-root selection with >=1 package", maxNodes), completed == maxNodes)
 }
